@@ -343,8 +343,19 @@ def determinism_gate(path, log):
         )
         outs.append((p.returncode, p.stdout.strip().splitlines()[-1] if p.stdout.strip() else ""))
     if outs[0] != outs[1]:
-        log(f"    determinism gate: replays differ: {outs}")
-        return False
+        # the verdict is what must repeat: same exit code, same signature, same set of other signatures; a detail of the
+        # observed value that differs between two processes (an address, a wall-clock default) is reported, not fatal
+        def verdict(o):
+            try:
+                d = json.loads(o[1])
+                return (o[0], d.get("reproduced"), d.get("signature"), tuple(d.get("other_signatures") or ()))
+            except Exception:
+                return o
+
+        if verdict(outs[0]) != verdict(outs[1]):
+            log(f"    determinism gate: replays differ: {outs}")
+            return False
+        log("    determinism gate: both replays reproduce the violation; the observed values differ in detail between processes")
     if outs[0][0] != 1:
         log(f"    determinism gate: replay did not reproduce (rc={outs[0][0]}): {outs[0][1]}")
         return False
